@@ -19,6 +19,15 @@ input conversion: the model is asked with the RAW input (the variants read back 
   exception must be the rejection reason `mkInst` gives.
 correspondence (ctx.disagree): model cost == impl cost; model super-reads for the implementation's witness ==
   implementation's super-reads (tie flags included); table-based column cost == direct column cost.
+compute_table as coded (`c01.ckpt`, Model/C01Ckpt.lean: stored backtrace tables, every floor(sqrt(n))-th column kept,
+  backtrace by recomputation of the segment between two check-points, first strict minimum in Gray-code order):
+  the returned partition, transmission vector and super reads are compared EXACTLY (ties included) on every solved
+  instance; the long-thin stream (16-40 columns, k = 4..6) and the medium stream (up to 12 columns, k = 1..3) give
+  several check-points per instance.
+32-bit arithmetic (`c01.cost32`, Model/C01U32.lean): stream `u32` scales weights / recombination costs so that the
+  cost sums lie on both sides of 2^32; the reported cost (or the conflict exception) must be what the wrap-around
+  model computes, and below the proved bound `ubAll < UINT_MAX` (theorem `no_overflow`) it must be the true optimum.
+  F30: `get_optimal_cost()` came back negative for optima >= 2^31 (cpp.pxd declared `int`), fixes/F30.patch.
 """
 import itertools, json, math
 
@@ -26,9 +35,11 @@ RULE = ("random (Ped)MEC instances: 1-2 unrelated individuals, trios, quartets; 
         "from a hidden truth plus noise, weights 1..40 with many equal weights (ties), trusted genotypes (consistent "
         "or random/conflicting) or phred likelihood triples, recombination costs 0..30, optional read-less columns "
         "via the positions argument, optional variants at positions that are no columns (skipped by the column iterator), "
-        "optional positions=None (columns = covered positions); rejected ReadSets (unsorted, unsorted variants, empty read); long-thin instances for the sqrt(n) checkpointing. Non-trivial = at least two "
+        "optional positions=None (columns = covered positions); rejected ReadSets (unsorted, unsorted variants, empty read); long-thin instances for the sqrt(n) checkpointing; stream u32: weights / recombination costs scaled so that cost sums lie around 2^32. Non-trivial = at least two "
         "reads sharing a column and at least two columns; distinct = distinct serialised instance")
-ASSUMPTIONS = ["32-bit overflow of finite costs is not modelled (generated sums stay far below 2^31)",
+ASSUMPTIONS = ["optimality of the reported cost is claimed for instances whose cost bound ubAll (all read weights + largest "
+               "genotype costs + two recombinations per trio and column) is below UINT_MAX = 2^32-1 (theorem no_overflow); "
+               "beyond it the solver's unsigned 32-bit sums wrap (modelled by dpCost32, compared, not a failure)",
                "reads are given sorted (ReadSet.sort()) as the solver requires"]
 MANIFEST = dict(
     text="Lean 4 theorems about a model of the column DP (PedigreeDPTable): the DP value equals the minimum of the "
@@ -38,7 +49,8 @@ MANIFEST = dict(
          "compiled model, and the property predicate (true minimum by enumeration, witness cost, tie flags, "
          "infeasibility) is evaluated on every implementation output",
     design_ref="DESIGN.md §5 C01",
-    note="trusted: Lean kernel; hand-written model (sqrt-n checkpointing and 32-bit overflow not modelled); "
+    note="trusted: Lean kernel; hand-written model (now including compute_table's stored backtrace tables, sqrt-n "
+         "check-pointing with recomputation, Gray-order tie-breaking, and the 32-bit wrap-around arithmetic); "
          "correspondence is differential testing (quick ≈1 500 instances, thorough ≈30 000 + exhaustive tiny spaces)",
     technique="Lean 4 proof (DP = brute-force optimum by induction over columns) + differential correspondence with brute-force oracle",
 )
@@ -181,7 +193,7 @@ def run_impl(inst):
     return run_on_readset(inst, rs, ids, names)
 
 
-def run_on_readset(inst, rs, ids, names, first=False):
+def run_on_readset(inst, rs, ids, names, first=False, cost_only=False):
     from whatshap.core import Pedigree, PedigreeDPTable, Genotype, PhredGenotypeLikelihoods
     order = [int(rd.name[4:]) for rd in rs]
     ped = Pedigree(ids)
@@ -209,6 +221,8 @@ def run_on_readset(inst, rs, ids, names, first=False):
     raw = readset_raw(rs, {ids[names[i]]: i for i in range(inst["nind"])}, positions, inst)
     try:
         dp = PedigreeDPTable(rs, inst["recomb"], ped, distrust, positions)
+        if cost_only:
+            return {"cost": dp.get_optimal_cost(), "order": order, "raw": raw}
         superreads, tv = dp.get_super_reads()
         cost = dp.get_optimal_cost()
         part = dp.get_optimal_partitioning()
@@ -221,6 +235,64 @@ def run_on_readset(inst, rs, ids, names, first=False):
         a, b = list(superreads[i])
         sr.append([[(v.position // 10 - 1, v.allele) for v in a], [(v.position // 10 - 1, v.allele) for v in b]])
     return {"cost": cost, "partition": part, "tau": list(tv), "superreads": sr, "order": order, "raw": raw}
+
+
+def gen_big(rng):
+    """an instance whose cost sums lie around 2^32 (both sides): weights, and sometimes recombination costs, of a
+    small/medium instance are scaled so that the no-overflow bound `ubAll` lands in [0.2, 2.5] * 2^32.  Genotype
+    costs stay small (a `double` beyond UINT_MAX converted to `unsigned int` is undefined behaviour)."""
+    if rng.random() < 0.4:
+        # forced errors: homozygous trusted genotypes and reads carrying the other allele, so that the OPTIMUM itself
+        # (not only the bound) is huge: optimum = sum of the weights of the disagreeing entries
+        ncols = rng.randrange(1, 4)
+        target = int((2 ** 32) * rng.choice([0.4, 0.55, 0.8, 0.99, 1.0, 1.01, 1.3, 2.2]))
+        hom = [rng.choice([0, 2]) for _ in range(ncols)]
+        reads = []
+        for _ in range(rng.randrange(2, 7)):
+            first = rng.randrange(ncols); last = rng.randrange(first, ncols)
+            reads.append({"ind": 0, "first": first, "last": last,
+                          "entries": [[c, rng.choice([0, 1]), 1] for c in range(first, last + 1)]})
+        reads.sort(key=lambda r: r["first"])
+        bad = [e for r in reads for e in r["entries"] if e[1] != hom[e[0]] // 2]
+        for e in bad:
+            e[2] = min(max(1, target // len(bad)) + rng.choice([0, 0, 1]), 2 ** 31 - 1)
+        for r in reads:
+            for e in r["entries"]:
+                if e not in bad:
+                    e[2] = rng.choice([1, 30, 2 ** 20, 2 ** 30])
+        return {"ncols": ncols, "reads": reads, "nind": 1, "trios": [],
+                "geno": [[[0 if k == hom[c] else None for k in range(3)] for c in range(ncols)]],
+                "recomb": [0] * ncols, "mode": "trusted", "use_positions": True}
+    inst = gen_instance(rng, small=rng.random() < 0.5)
+    inst.pop("offgrid", None); inst.pop("reuse", None)
+    inst["use_positions"] = True
+    tot = sum(e[2] for r in inst["reads"] for e in r["entries"]) or 1
+    target = int((2 ** 32) * rng.choice([0.2, 0.6, 0.9, 0.99, 1.0, 1.01, 1.2, 2.5]))
+    share = rng.choice([1.0, 1.0, 0.7, 0.3]) if inst["trios"] else 1.0
+    f = max(1, int(target * share) // tot)
+    for r in inst["reads"]:
+        for e in r["entries"]:
+            e[2] = min(e[2] * f + rng.choice([0, 0, 1, 7]), 2 ** 31 - 1)     # Read.add_variant takes a C int
+    if inst["trios"] and share < 1.0:
+        rtot = 2 * len(inst["trios"]) * (sum(inst["recomb"]) or 1)
+        g = max(1, int(target * (1 - share)) // rtot)
+        inst["recomb"] = [min(x * g, 2 ** 32 - 1) for x in inst["recomb"]]
+    return inst
+
+
+def run_cost_only(inst):
+    """constructor + get_optimal_cost only (no backtrace results are read)"""
+    from whatshap.core import Read, ReadSet, NumericSampleIds
+    ids = NumericSampleIds()
+    names = [f"ind{i}" for i in range(inst["nind"])]
+    rs = ReadSet()
+    for k, r in enumerate(inst["reads"]):
+        rd = Read(f"read{k:04d}", 50, 0, ids[names[r["ind"]]])
+        for c, a, w in r["entries"]:
+            rd.add_variant((c + 1) * 10, a, w)
+        rs.add(rd)
+    rs.sort()
+    return run_on_readset(inst, rs, ids, names, cost_only=True)
 
 
 def readset_raw(rs, ind_of, positions, inst):
@@ -439,6 +511,7 @@ def run(ctx):
             reqs.append({"op": "c01.eval", "raw": raw, "beta": [bool(x) for x in impl["partition"]], "tau": impl["tau"]})
         if brute:
             reqs.append({"op": "c01.brute", "raw": raw})
+        reqs.append({"op": "c01.ckpt", "raw": raw})
         pending.append((inst, impl, start, brute, raw))
         if len(ctx.samples) < 3 and inst["ncols"] >= 2 and len(inst["reads"]) >= 3:
             ctx.sample({"instance": mi, "impl": {k: v for k, v in impl.items() if k != "order"}})
@@ -458,7 +531,10 @@ def run(ctx):
                 continue
             start += 1
             mcost = ans[start]["cost"]
+            ck = ans[start + (1 if "error" in impl else 2) + (1 if brute else 0)]
             if "error" in impl:
+                if ck.get("path") is not None:
+                    ctx.disagree("c01.ckpt(path)", case, "mendelian-conflict", ck)
                 if mcost is not None:
                     ctx.disagree("c01.cost", case, "mendelian-conflict", mcost)
                     if brute and ans[start + 1]["cost"] is not None:
@@ -488,8 +564,66 @@ def run(ctx):
                     for i in range(inst["nind"])] for c in range(inst["ncols"])]
             if msr != isr:
                 ctx.disagree("c01.eval.superreads", case, isr, msr)
+            # compute_table as coded (stored backtrace tables, sqrt(n) check-pointing, backtrace by recomputation,
+            # first minimum in Gray-code order): the very index path's partition / transmission vector / super reads
+            ctx.dist("checkpoint_spacing_k", ck.get("k"))
+            if ck.get("path") is None:
+                ctx.disagree("c01.ckpt(path)", case, {"partition": impl["partition"], "tau": impl["tau"]}, ck)
+            else:
+                same = (ck["tau"] == impl["tau"] and [bool(x) for x in ck["beta"]] == [bool(x) for x in impl["partition"]]
+                        and ck["superreads"] == isr)
+                ctx.dist("ckpt_witness", "identical to the model of compute_table" if same else "different")
+                if not same:
+                    # an optimal witness that is not the one the coded tie-breaking yields still satisfies the
+                    # property; it means the model no longer mirrors compute_table (named so in the report)
+                    optimal = ev["cost"] == impl["cost"] == mcost and msr == isr
+                    ctx.disagree("c01.ckpt(tie-breaking only: the returned witness is optimal but not the first minimum "
+                                 "in visiting order)" if optimal else "c01.ckpt(witness)", case,
+                                 {"partition": impl["partition"], "tau": impl["tau"], "superreads": isr},
+                                 {"partition": ck["beta"], "tau": ck["tau"], "superreads": ck["superreads"], "k": ck["k"]})
             ctx.validated()
         pending.clear(); reqs.clear()
+
+    def run_u32(insts):
+        big = []
+        for inst in insts:
+            ctx.inflight({"instance": {**model_inst(inst), "mode": inst["mode"], "use_positions": True}, "stream": "u32"})
+            impl = run_cost_only(inst)
+            big.append((reorder(inst, impl["order"]), impl))
+        breqs = []
+        for inst, impl in big:
+            breqs.append({"op": "c01.cost32", "raw": impl["raw"]})
+            breqs.append({"op": "c01.cost", "raw": impl["raw"]})
+        bans = ask_bounded(ctx.model, breqs)
+        for n, (inst, impl) in enumerate(big):
+            a32, aex = bans[2 * n], bans[2 * n + 1]
+            ctx.evaluated()
+            case = {"instance": {**model_inst(inst), "mode": inst["mode"], "use_positions": True}, "stream": "u32"}
+            got = "mendelian-conflict" if "error" in impl else impl["cost"]
+            if isinstance(got, int) and got < 0:
+                # F30: `get_optimal_score()` returns `unsigned int`, cpp.pxd declared it `int`
+                ctx.fail(f"get_optimal_cost() returned the negative number {got} (the optimum is {aex['cost']})", case,
+                         key="F30-cost-reported-negative")
+                got %= 2 ** 32            # the C++ value, for the comparisons below
+            want32 = "mendelian-conflict" if a32["throws"] else a32["cost32"]
+            exact = "mendelian-conflict" if aex["cost"] is None else aex["cost"]
+            safe = a32["ub"] < 2 ** 32 - 1
+            ctx.dist("u32_bound", "ubAll < UINT_MAX" if safe else "ubAll >= UINT_MAX")
+            if got != want32:
+                ctx.disagree("c01.cost32", case, got, a32)
+            if safe:
+                if want32 != exact:
+                    ctx.disagree("c01.cost32(no_overflow: 32-bit model vs unbounded model below the bound)", case, exact, a32)
+                if got != exact:
+                    ctx.fail(f"cost sums stay below UINT_MAX (bound {a32['ub']}) but the reported result {got} is not the "
+                             f"optimum {exact}", case, key="not-optimal")
+                ctx.validated()
+            elif got != exact:
+                ctx.dist("u32_beyond_bound", "wrapped (result differs from the optimum)")
+                ctx.observe("32-bit overflow beyond the proved bound: solver result differs from the true optimum "
+                            "(as the wrap-around model predicts)")
+            else:
+                ctx.dist("u32_beyond_bound", "still exact")
 
     # ---- replay / corpus
     cases = [c for _, c in ctx.corpus()]
@@ -497,6 +631,9 @@ def run(ctx):
         cases = [json.load(open(ctx.replay))["case"]]
     for c in cases:
         inst = c["instance"]
+        if c.get("stream") == "u32":
+            run_u32([inst])
+            continue
         small = len(inst["reads"]) <= 6 and inst["ncols"] <= 4 and len(inst["trios"]) <= 1
         submit(inst, brute=small)
     flush()
@@ -505,7 +642,7 @@ def run(ctx):
 
     n_small = (1200 if ctx.quick else 8000) * ctx.scale
     n_mid = (1200 if ctx.quick else 20000) * ctx.scale
-    n_long = (40 if ctx.quick else 600) * ctx.scale
+    n_long = (60 if ctx.quick else 600) * ctx.scale
     for _ in range(n_small):
         submit(gen_instance(rng, small=True), brute=True)
     for _ in range(n_mid):
@@ -572,6 +709,10 @@ def run(ctx):
              (msg is not None and a.get("inst") is None and REJECT_MESSAGES.get(why, "\0") in msg and py_mkinst(raw) is None)
         if not ok:
             ctx.disagree("c01.mkinst(rejection)", {"raw": raw}, msg or "accepted", a if msg is None else why)
+
+    # ---- 32-bit arithmetic: cost sums around 2^32.  Below the bound `ubAll < UINT_MAX` (theorem `no_overflow`) the
+    # real cost must be the exact optimum; everywhere it must be what the wrap-around model `dpCost32`/`throws32` says
+    run_u32([gen_big(rng) for _ in range((150 if ctx.quick else 3000) * ctx.scale)])
 
     # ---- table-based column cost == direct column cost (the incremental table of the code)
     tab_reqs, tab_meta = [], []
